@@ -1389,6 +1389,8 @@ def crash_key(o, f, sheets):
 def run_fuzz_case(ctx, i, rng):
     if i % 40 == 7:
         return run_text_fuzz_case(ctx, i, rng)
+    if i % 40 == 23:
+        return run_binary_fuzz_case(ctx, i, rng)
     f = base_form(rng, ctx.tier)
     tags = []
     for _ in range(rng.choice([1, 1, 2, 2, 3, 4, 6])):
@@ -1466,6 +1468,54 @@ def run_text_fuzz_case(ctx, i, rng):
                  {"text": text[:4000], "fmt": fmt, "tags": tags, "klass": "text"})
 
 
+def run_binary_fuzz_case(ctx, i, rng):
+    """Container-level fuzz: workbook bytes with damage (truncated, a flipped run of bytes, junk before or after, text bytes that are not UTF-8): a service is handed
+    whatever was uploaded; the answer is a conversion or the library's error, never a zip/OLE/codec exception."""
+    import base64
+    f = base_form(rng, "quick")
+    fmt = pick(rng, ["xlsx", "xls", "md", "csv"])
+    try:
+        data = render.render(f.to_sheets(), fmt)
+    except Exception:
+        return
+    raw = bytearray(data.encode("utf-8") if isinstance(data, str) else data)
+    tags = []
+    for _ in range(rng.randint(1, 2)):
+        m = rng.randrange(6)
+        if m == 0 and len(raw) > 8:
+            raw = raw[: rng.choice([4, 8, 30, len(raw) // 2, len(raw) - 1, rng.randrange(len(raw))])]
+            tags.append("truncated")
+        elif m == 1 and raw:
+            k = rng.randrange(len(raw))
+            n = rng.choice([1, 4, 64])
+            raw[k:k + n] = bytes(rng.randrange(256) for _ in range(n))
+            tags.append("bytes-overwritten")
+        elif m == 2:
+            raw = bytearray(pick(rng, [b"\xff\xfe", b"\x00\x00", b"\xef\xbb", b"garbage\n", b"\xd0\xcf\x11\xe0", b"PK\x03\x04"])) + raw
+            tags.append("junk-prefix")
+        elif m == 3:
+            raw = raw + bytes(rng.randrange(256) for _ in range(rng.choice([1, 20, 500])))
+            tags.append("junk-suffix")
+        elif m == 4:
+            raw = bytearray(pick(rng, [b"\xd0\xcf\x11\xe0\xa1\xb1\x1a\xe1" + bytes(100), b"PK\x03\x04truncated", b"\xff\xfe\x00x", b"\x09\x08\x10\x00\x00\x06\x05\x00", b"", b"\x00" * 64,
+                                       "| survey |\n| | type | name | label |\n| | text | a | caf\xe9 |\n".encode("latin-1")]))
+            tags.append("not-a-workbook")
+        else:
+            raw = bytearray(bytes(raw).decode("utf-8", "replace").encode("utf-16")) if fmt in ("md", "csv") else raw[::-1]
+            tags.append("other-encoding")
+    raw = bytes(raw)
+    kw = {"file_type": "." + fmt} if rng.random() < 0.5 else {}
+    o = drive.call_convert(raw, **kw)
+    cls = "ok" if o.ok else ("pyxform-error" if o.exc_is_pyxform else "internal")
+    ctx.case(sig=repr(("bin", fmt, tuple(sorted(set(tags))), bool(kw), cls)))
+    ctx.ctr(f"fuzz_outcome:{cls}")
+    ctx.ctr("fuzz_cases")
+    ctx.ctr("binary_fuzz_cases")
+    if cls == "internal":
+        ctx.viol(f"crash:{o.exc_type}:damaged-container-bytes:{'typed' if kw else 'sniffed'}", f"internal {o.exc_type} escaped convert() on damaged {fmt} bytes ({tags}, file_type {'given' if kw else 'not given'}): {o.exc_msg[:160]!r} at {o.exc_frame}",
+                 {"bytes_b64": base64.b64encode(raw[:6000]).decode(), "fmt": fmt, "tags": tags, "kw": kw, "klass": "binary"})
+
+
 # =============================================================================== plan / shard / replay
 def plan(tier, seed):
     na, nb = (3200, 4800) if tier == "quick" else (60000, 120000)
@@ -1505,6 +1555,13 @@ def replay(w):
             print("  outcome now:", o.brief()[:300])
             if not o.ok and not o.exc_is_pyxform:
                 ctx.viol(f"crash:{o.exc_type}@{o.exc_frame}", o.brief())
+            return
+        if wit.get("klass") == "binary":
+            import base64
+            o = drive.call_convert(base64.b64decode(wit["bytes_b64"]), **wit.get("kw", {}))
+            print("  outcome now:", o.brief()[:300])
+            if not o.ok and not o.exc_is_pyxform:
+                ctx.viol(f"crash:{o.exc_type}:damaged-container-bytes", o.brief())
             return
         f = common.form_from_witness(wit)
         fmt = wit.get("fmt", "dict")
